@@ -9,6 +9,13 @@ open Neutrino.Disp
 #print axioms C12_success_all_partial
 #print axioms C12_success_all
 #print axioms C12_subs_recorded
+#print axioms C12_rank_waits_for_best
+#print axioms C12_offer_is_accept
+#print axioms C12_eager_offer_counterexample
+#print axioms C12_rank_survives_churn
+#print axioms C12_rank_own_history
+#print axioms C12_record_persists
+#print axioms C12_evicting_ranking_counterexample
 #print axioms C12_rank_scores
 #print axioms C12_score_moves
 #print axioms C12_hard_timeout_honoured
